@@ -32,34 +32,66 @@ ASSUMPTIONS = ["message attributes are Python ints / bools / lists of ints / byt
 
 
 def enc_case(spec):
-    o = L.build(spec)
-    term = L.obj_term(o)
+    """never raises: a constructor that raises or an instance that cannot be dumped is an Unexpected case"""
+    term, o, err = L.safe_obj_term(lambda: L.build(spec))
+    if err is not None:
+        obs = L.unexpected("bytes", "cannot build/dump %s: %s" % (spec[0], err))
+        return Case("(OIllegal 0, %s)" % obs, {"class": spec[0], "args": repr(spec[1:])[:600], "observed": obs[:400]},
+                    kind=spec[0], nontrivial=False)
     obs, v, e = L.res(lambda: L.pdu_of(o), L.nbytes, "bytes")
     desc = {"class": spec[0], "args": repr(spec[1:])[:600], "observed": obs[:400]}
     return Case("(%s, %s)" % (term, obs), desc, kind=spec[0], nontrivial=e is None)
 
 
 def dec_case(server, m, data, kind):
+    """never raises: whatever the decoders return or raise becomes an observation in the case term"""
     obs, o, e = L.res(lambda: L.helper(server, data), L.obj_term, "obj")
     wobs, _, _ = L.res(lambda: L.wrapper(server, data), L.optobj, "option obj")
-    om = "(@None msg)" if m is None else "(Some %s)" % L.msg_term(m)
-    term = "(%s, %s, %s, %s, %s)" % ("true" if server else "false", om, L.nbytes(data), obs, wobs)
+    try:
+        om = "(@None msg)" if m is None else "(Some %s)" % L.msg_term(m)
+    except Exception as x:  # noqa: BLE001 — a harness-side printing problem must not stop the other cases
+        om, obs = "(@None msg)", L.unexpected("obj", "harness could not print the message: %r" % (x,))
+    term = "(%s, %s, %s, %s, %s)" % ("true" if server else "false", om, L.nbytes(bytes(data)), obs, wobs)
     desc = {"server": server, "kind": None if m is None else m[0], "msg": None if m is None else repr(m),
             "ndata": len(m[2]) if m is not None and m[0] in ("MDiagReq", "MDiagRsp") else None,
-            "pdu": data.hex(), "observed": obs[:400]}
+            "pdu": bytes(data).hex(), "observed": obs[:400]}
     return Case(term, desc, kind=kind, nontrivial=e is None)
+
+
+def guarded(fn, fallback_term, label):
+    """last resort: an exception escaping a case builder becomes an Unexpected case, not a crash of suites()"""
+    try:
+        return fn()
+    except Exception as e:  # noqa: BLE001
+        txt = "%s: %s" % (type(e).__name__, e)
+        return Case(fallback_term(txt), {"class": label, "kind": label, "observed": "Unexpected " + txt[:300]},
+                    kind=str(label), nontrivial=False)
+
+
+def enc_fallback(txt):
+    return "(OIllegal 0, %s)" % L.unexpected("bytes", "case builder failed: " + txt)
+
+
+def dec_fallback(txt):
+    u = "case builder failed: " + txt
+    return '(true, @None msg, []%%N, %s, %s)' % (L.unexpected("obj", u), L.unexpected("option obj", u))
 
 
 def suite_enc(tier):
     r = common.rng("C01.enc")
-    return Suite("enc", IMPORTS, "chk_enc", [enc_case(s) for s in L.class_specs(r, tier)], shard=250)
+    return Suite("enc", IMPORTS, "chk_enc",
+                 [guarded(lambda s=s: enc_case(s), enc_fallback, s[0]) for s in L.class_specs(r, tier)], shard=250)
 
 
 def suite_dec(tier):
     r = common.rng("C01.dec")
     cases = []
     for m in L.spec_msgs(r, tier):
-        cases.append(dec_case(m[0] in L.REQUEST_KINDS, m, L.spec_bytes(m), m[0]))
+        try:
+            data = L.spec_bytes(m)
+        except Exception:  # noqa: BLE001 — harness-side; skip this message, keep the others
+            continue
+        cases.append(guarded(lambda m=m, data=data: dec_case(m[0] in L.REQUEST_KINDS, m, data, m[0]), dec_fallback, m[0]))
     return Suite("dec", IMPORTS, "chk_dec", cases, shard=250)
 
 
@@ -70,11 +102,14 @@ def suite_mal(tier):
     def add(server, data, kind):
         if (server, data) not in seen and len(data) <= 300:
             seen.add((server, data))
-            cases.append(dec_case(server, None, data, kind))
+            cases.append(guarded(lambda: dec_case(server, None, data, kind), dec_fallback, kind))
 
     pdus = []
     for m in L.spec_msgs(r, "quick"):
-        b = L.spec_bytes(m)
+        try:
+            b = L.spec_bytes(m)
+        except Exception:  # noqa: BLE001
+            continue
         if len(b) <= (40 if tier == "quick" else 300):
             pdus.append(b)
     # the library's own encodings too (so that its non-conforming layouts are also truncated)
@@ -119,10 +154,12 @@ def suites(tier):
 # ----------------------------------------------------------------------------- findings / replay
 
 def classify(suite, desc):
+    if "Unexpected" in (desc.get("observed") or ""):
+        return None                       # an undumpable outcome is never a known finding
     if suite == "enc":
-        if desc["class"] == "ReadFifoQueueResponse":
+        if desc.get("class") == "ReadFifoQueueResponse":
             return "F-C01-fifo-response"
-        if desc["class"] == "ReadFileRecordResponse":
+        if desc.get("class") == "ReadFileRecordResponse":
             return "F-C01-file-record-response-encode"
     if suite == "dec":
         k = desc.get("kind")
@@ -136,7 +173,15 @@ def classify(suite, desc):
 
 
 def replay_finding(f):
-    """True when the witness still violates the property on the implementation."""
+    """True when the witness still violates the property on the implementation (a crash while
+    replaying counts as still violating)."""
+    try:
+        return _replay_finding(f)
+    except Exception:  # noqa: BLE001
+        return True
+
+
+def _replay_finding(f):
     N = L.ns()
     w = f["witness"]
     fid = f["id"]
